@@ -103,6 +103,7 @@ inductive Err
   | unknownSeq | exists_ | badDenom | insufficientBond | insufficientFunds | notInitialSeq
   | unbondNotAllowed | proposerOrSuccessor | rotationInProgress | noticeInProgress | noticeStarted
   | notPotential | notKickable | noProposerFound | unauthorized | invalid | panic
+  | blockedRecipient
   deriving DecidableEq, Repr, Inhabited
 
 abbrev M := Except Err
@@ -354,8 +355,20 @@ def sendToModule (s : St) (q : Seq) (amt : Nat) : M (St × Seq) :=
   .ok ({ s with bal := setBal s.bal q.addr (getBal s.bal q.addr - amt), modBal := s.modBal + amt },
        { q with tokens := q.tokens + amt })
 
+/-- `bank.BlockedAddr`: the addresses the bank refuses as recipients of `SendCoinsFromModuleToAccount`
+    (the module accounts listed in the app's blocked-address map, e.g. the distribution module account).
+    Convention: actor indices ≥ 900 stand for blocked module accounts (the harness token `m<i>` is
+    index 900+i, `m0` = the distribution module account); ordinary actors `a<i>` have small indices
+    and "nobody" actors indices ≥ 100000 are never named as recipients. -/
+def blockedAddr (a : Addr) : Bool := decide (900 ≤ a ∧ a < 1000)
+
+/-- `sendFromModule` (funds.go): the in-memory bond is decremented (`Coin.Sub` panics below zero), then
+    `SendCoinsFromModuleToAccount`: recipient check (`ErrUnauthorized` "is not allowed to receive funds")
+    before the transfer itself (insufficient funds).  A failure leaves everything as it was (the
+    message fails as a whole). -/
 def sendFromModule (s : St) (q : Seq) (amt : Nat) (to : Addr) : M (St × Seq) :=
   if q.tokens < amt then .error .panic else
+  if blockedAddr to then .error .blockedRecipient else
   if s.modBal < amt then .error .insufficientFunds else
   .ok ({ s with bal := setBal s.bal to (getBal s.bal to + amt), modBal := s.modBal - amt },
        { q with tokens := q.tokens - amt })
